@@ -92,6 +92,10 @@ UASchemas == <<[uniqueItems |-> TRUE],
                [const |-> Arr(<<Obj([a |-> Num(R_1)])>>)], [enum |-> <<>>], [const |-> Null],
                [items |-> [enum |-> <<Num(R_1), Obj([a |-> Num(R_1), b |-> Num(R_2)])>>]],
                [items |-> [const |-> Str("1")]],
+               \* enum AND const in one schema object: both must hold
+               [items |-> [enum |-> <<Num(R_1), Str("1"), Null>>, const |-> Num(R_1)]], [items |-> [enum |-> <<Num(R_0), Null>>, const |-> Num(R_1)]],
+               [items |-> [enum |-> <<>>, const |-> Null]],
+               [enum |-> <<Arr(<<Num(R_m1)>>), Arr(<<Num(R_1), Num(R_1)>>)>>, const |-> Arr(<<Num(R_m1)>>)],
                \* several uniqueItems checks within ONE Validate call, an earlier one failing inside an applicator that
                \* tolerates failure: every check starts from nothing
                [prefixItems |-> <<[not |-> [uniqueItems |-> TRUE]], [uniqueItems |-> TRUE]>>],
